@@ -333,6 +333,37 @@ Section Hist.
     f_equal. now apply call_indep.
   Qed.
 
+  (* the same without any restriction on the method: the last step is the call on SOME stored table *)
+  Lemma instance_last_step h1 h2 slot c xs iargs cd ids m sg args ret :
+    nth_error (w_classes w) c = Some cd -> cd_kind cd = KGeneric ids ->
+    nth_error (cd_methods cd) m = Some sg ->
+    fst (STEP (snd (FROM [] h1)) (SNew slot c xs iargs)) = ROk ->
+    forallb (fun s => negb (is_new_on slot s)) h2 = true ->
+    exists tb,
+    last (run_history cfg ctx w (h1 ++ SNew slot c xs iargs :: h2 ++ [SCall slot m args ret])) RAbsent
+    = to_sres (fst (run_call cfg ctx (refresh_of (KGeneric ids) (Some xs)) sg args ret tb)).
+  Proof.
+    intros Hc Hk Hm Hnew Hh2. unfold run_history.
+    replace (h1 ++ SNew slot c xs iargs :: h2 ++ [SCall slot m args ret])
+      with ((h1 ++ [SNew slot c xs iargs] ++ h2) ++ [SCall slot m args ret])
+      by (now rewrite <- !app_assoc).
+    rewrite last_run_snoc, !run_from_snd_app.
+    set (st1 := snd (FROM [] h1)) in *.
+    set (st2 := snd (FROM st1 [SNew slot c xs iargs])).
+    set (st3 := snd (FROM st2 h2)).
+    assert (H2 : exists tb, st_get st2 slot = Some {| i_cls := c; i_targs := Some xs; i_table := tb |}).
+    { unfold st2. cbn [run_from snd run_step]. cbn [run_step] in Hnew. rewrite Hc in *.
+      destruct (cd_init cd) as [isg|].
+      - destruct (run_call cfg ctx (refresh_of (cd_kind cd) None) isg iargs VNone []) as [[u|e] tb]; cbn [fst snd] in *; [|discriminate].
+        rewrite st_get_set_same. eauto.
+      - cbn [snd]. rewrite st_get_set_same. eauto. }
+    destruct H2 as [tb2 H2].
+    pose proof (from_identity h2 st2 slot Hh2) as Hid. fold st3 in Hid. rewrite H2 in Hid.
+    destruct (st_get st3 slot) as [i|] eqn:E3; [|destruct Hid]. simpl in Hid. destruct Hid as [Hic Hit].
+    exists (i_table i).
+    cbn [run_step]. rewrite E3, <- Hic, Hc, Hm. cbn [fst]. rewrite Hk, <- Hit. reflexivity.
+  Qed.
+
   (* ---- plain functions: nothing leaks from earlier calls ------------------------------------------------ *)
   Theorem no_leak_fun h f args ret :
     last (run_history cfg ctx w (h ++ [SFun f args ret])) RAbsent = last (run_history cfg ctx w [SFun f args ret]) RAbsent.
